@@ -334,7 +334,12 @@ pub fn gen_msg_program(id: &str, tape: Vec<u32>, opts: &GenOpts) -> Program {
     let mut interfaces = vec![];
     for i in 0..nif {
         let nassoc = t.weighted(&[55, 30, 15]);
-        let assoc: Vec<Ty> = (0..nassoc).map(|_| CONC[t.pick(CONC.len())].clone()).collect();
+        let mut assoc: Vec<Ty> = (0..nassoc).map(|_| CONC[t.pick(CONC.len())].clone()).collect();
+        if nassoc >= 2 && assoc[0] == assoc[1] {
+            // two associated types are instantiated differently (an argument swap must not type-check)
+            let k = CONC.iter().position(|c| *c == assoc[0]).unwrap_or(0);
+            assoc[1] = CONC[(k + 1) % CONC.len()].clone();
+        }
         let style = match t.weighted(&[50, 25, 25]) {
             0 => CustomStyle::Plain,
             1 => CustomStyle::Assoc,
@@ -350,6 +355,29 @@ pub fn gen_msg_program(id: &str, tape: Vec<u32>, opts: &GenOpts) -> Program {
         for k in (1..ms.len()).rev() {
             let j = t.pick(k + 1);
             ms.swap(k, j);
+        }
+        // with two associated types: often let one kind use them in the order opposite to their
+        // declaration (first use A1, then A0), the shape in which parameter order matters
+        if nassoc >= 2 && t.chance(60) {
+            // two methods of one kind: the earlier one starts with A1, the later one with A0
+            // (so the first-use order of that kind flips when the methods are reordered);
+            // without such a pair, one method takes (A1, A0)
+            let pair = (0..ms.len()).find_map(|i| ((i + 1)..ms.len()).find(|j| ms[*j].kind() == ms[i].kind()).map(|j| (i, j)));
+            let fresh = |m: &Method| !m.args.iter().any(|a| a.name == "rev_b" || a.name == "rev_a");
+            match pair {
+                Some((i, j)) if fresh(&ms[i]) && fresh(&ms[j]) => {
+                    ms[i].args.insert(0, Arg { name: "rev_b".into(), ty: Ty::Assoc(1), attrs: vec![] });
+                    ms[j].args.insert(0, Arg { name: "rev_a".into(), ty: Ty::Assoc(0), attrs: vec![] });
+                }
+                _ => {
+                    if let Some(m) = ms.first_mut() {
+                        if fresh(m) {
+                            m.args.insert(0, Arg { name: "rev_a".into(), ty: Ty::Assoc(0), attrs: vec![] });
+                            m.args.insert(0, Arg { name: "rev_b".into(), ty: Ty::Assoc(1), attrs: vec![] });
+                        }
+                    }
+                }
+            }
         }
         let explicit_as = t.chance(35);
         let trait_name = if explicit_as && t.chance(60) { format!("{}Api", traits[i]) } else { traits[i].to_string() };
